@@ -74,8 +74,10 @@ def run(ctx):
                tot["compared_cases"] > 0 and not errs, str(errs)[:300])
     ctx.oblige("correspondence walls: outcome (kept / erased / error kind), velocity (exact), position (1e-12), cell of the real binary = Lean model `collide`",
                not dis, str([dict(what=d.get("what"), kind=d.get("kind"), r=d.get("r"), v=d.get("v")) for d in dis[:2]])[:500])
-    ctx.oblige("oracle on the real runs: particle number constant, inside the domain, speed, mirror law, bounce-back law (%d scenarios, %d steps; all reflectors, with and without forces)"
-               % (tot["oracle_cases"], tot["oracle_steps"]), not fails, str([dict(sig=f["signature"], what=f["what"]) for f in fails[:2]])[:500])
+    known = [f["signature"] for f in common.known_findings().get("open", []) if f.get("property") == "C08"]
+    unknown = [f for f in fails if not any(k in f["signature"] for k in known)]
+    ctx.oblige("oracle on the real runs: particle number constant, inside the domain, speed, mirror law, bounce-back law (%d scenarios, %d steps; all reflectors, with and without forces); %d failures, all of them the recorded known finding(s) %s"
+               % (tot["oracle_cases"], tot["oracle_steps"], len(fails), known), not unknown, str([dict(sig=f["signature"], what=f["what"]) for f in unknown[:2]])[:500])
     ctx.coverage.update(dict(evaluations=tot["ncases"], distinct_nontrivial=tot["oracle_cases"], traces_validated_against_impl=tot["compared_cases"],
                              rule="one free particle in a BoundaryCuboid (all 8 wall/periodic combinations), kinds headon / oblique / edge / corner / multi / endhit / graze / percross / chord / "
                                   "fast / stoch / force of sim/corr_walls.py, all three reflectors; non-trivial = the real run produced a dump the oracles were applied to; distinct by construction",
@@ -83,9 +85,10 @@ def run(ctx):
     ctx.assumptions += ["PARTIAL: accelerated flight (quadratic hit times, GSL), grazing/edge decisions by c_wt_dist_eps in double arithmetic, triangulated STL walls and ReflectorStochastic in the loop are reached only by the oracles",
                         "eps = c_rm_disp_eps = 1e-10, delta = -c_wt_dist_eps = 1e-5, geps = g_geom_eps are passed to the model as the exact rationals of these doubles",
                         "NoEdge hypothesis of C08_confined_cuboid: exact edge/corner hits with ReflectorMirror lose the particle (C08_edge_witness; known finding)"]
-    if not all(o[1] for o in ctx.obligations):
-        failing = [o[0] for o in ctx.obligations if not o[1]]
+    failing = [o[0] for o in ctx.obligations if not o[1]]
+    if fails or failing:
         if fails:
+            # every oracle failure is a violation on the real code; the ones listed in known_findings.json are printed as KNOWN-FINDING by Ctx.finish
             for sig in sorted({f["signature"] for f in fails}):
                 f = [x for x in fails if x["signature"] == sig][0]
                 ctx.violation("C08 violated on the real binary (%s): %s" % (sig, f["what"][:300]),
